@@ -430,6 +430,15 @@ nni_url_parse_inline_inner(nng_url *url, const char *raw)
 	s           = p;
 	url->u_path = p;
 
+	// Neither the user info nor the host can contain a blank or a control
+	// character.  (The host ends up in name lookups, in the TLS server name
+	// and in the HTTP Host header.)
+	for (const char *a = url->u_buffer; *a != '\0'; a++) {
+		if (((uint8_t) *a <= 0x20) || (*a == 0x7f)) {
+			return (NNG_EINVAL);
+		}
+	}
+
 	// shift the host back to the start of the buffer, which gives us
 	// padding so we don't have to clobber the leading "/" in the path.
 	url->u_hostname = url->u_buffer;
